@@ -22,60 +22,7 @@ variable {K : Type} [Field K]
 set_option linter.unusedSimpArgs false
 set_option linter.unusedSectionVars false
 
-/-! ### `Laws` does not look at the value stored for the ground node -/
-
-theorem volt_congr (x y : Ix → K) (h : ∀ i, i ≠ node 0 → x i = y i) (n : Nat) : volt x n = volt y n := by
-  cases n with
-  | zero => rfl
-  | succ k => exact h _ (by simp)
-
-theorem laws_congr (kind : Kind) (s : K) (cs : List (Cpt K)) (x y : Ix → K)
-    (h : ∀ i, i ≠ node 0 → x i = y i) : Laws kind s cs x → Laws kind s cs y := by
-  have hv := volt_congr x y h
-  have hb : ∀ m, x (br m) = y (br m) := fun m => h _ (by simp)
-  have hmd : ∀ coup : List (Nat × K × Option K), mutualDrop s x coup = mutualDrop s y coup := by
-    intro coup; simp [mutualDrop, hb]
-  have ho : ∀ k c, outflow kind s x k c = outflow kind s y k c := by
-    intro k c; cases c <;> simp [outflow, vd, hv, hb]
-  have hl : ∀ c, laws kind s x c = laws kind s y c := by
-    intro c; cases c <;> (try cases kind) <;> simp [laws, vd, hv, hb, hmd]
-  rintro ⟨hk, hlw⟩
-  refine ⟨fun k hk0 => ?_, fun c hc p hp => ?_⟩
-  · rw [← hk k hk0]; congr 1; apply List.map_congr_left; intro c _; exact (ho k c).symm
-  · rw [← hl c] at hp; exact hlw c hc p hp
-
-/-! ### the renaming is an involution and commutes with killing and probing -/
-
-theorem mapNodes_swap0_swap0 (g : Nat) (c : Cpt K) : (c.mapNodes (swap0 g)).mapNodes (swap0 g) = c := by
-  cases c <;> simp [Cpt.mapNodes]
-
-theorem reground_reground (g : Nat) (cs : List (Cpt K)) : reground g (reground g cs) = cs := by
-  simp [reground, List.map_map, Function.comp_def, mapNodes_swap0_swap0]
-
-theorem groundFree_mapNodes (ρ : Nat → Nat) (c : Cpt K) (h : c.GroundFree) : (c.mapNodes ρ).GroundFree := by
-  cases c <;> simp_all [Cpt.GroundFree, Cpt.mapNodes]
-
-theorem groundFree_reground (g : Nat) (cs : List (Cpt K)) (h : ∀ c ∈ cs, c.GroundFree) :
-    ∀ c ∈ reground g cs, c.GroundFree := by
-  intro c hc
-  obtain ⟨c0, hc0, rfl⟩ := List.mem_map.mp hc
-  exact groundFree_mapNodes _ c0 (h c0 hc0)
-
-theorem regroundSol_regroundSol (g : Nat) (x : Ix → K) :
-    ∀ i, i ≠ node 0 → regroundSol g (regroundSol g x) i = x i := by
-  intro i hi
-  cases i with
-  | br m => rfl
-  | node k =>
-    have hk : k ≠ 0 := fun h => hi (by rw [h])
-    show volt (regroundSol g x) (swap0 g k) - volt (regroundSol g x) g = x (node k)
-    have h1 : volt (regroundSol g x) (swap0 g k) = volt x k - volt x g := volt_regroundSol g x k
-    have h3 : volt (regroundSol g x) g = volt x 0 - volt x g := by
-      have := volt_regroundSol g x 0; simpa using this
-    rw [h1, h3]
-    cases k with
-    | zero => exact absurd rfl hk
-    | succ k => simp [volt]
+/-! ### solutions (helper lemmas: Proofs/Ground.lean) -/
 
 /-- **reground_laws**: a solution of the netlist, shifted by −x(g), is a solution of the netlist re-grounded at `g`. -/
 theorem reground_laws (kind : Kind) (s : K) (g : Nat) (cs : List (Cpt K)) (x : Ix → K)
@@ -123,13 +70,6 @@ theorem reground_observables (g : Nat) (x : Ix → K) :
 def Measures (kind : Kind) (s : K) (e : Experiment K) (q : K) : Prop :=
   (∃ x, Laws kind s e.ckt x) ∧ ∀ x, Laws kind s e.ckt x → e.obs.read x = q
 
-theorem read_regroundSol (g : Nat) (x : Ix → K) (o : Obs) :
-    (o.mapNodes (swap0 g)).read (regroundSol g x) = o.read x := by
-  cases o <;> simp [Obs.mapNodes, Obs.read]
-
-theorem obs_mapNodes_swap0_swap0 (g : Nat) (o : Obs) : (o.mapNodes (swap0 g)).mapNodes (swap0 g) = o := by
-  cases o <;> simp [Obs.mapNodes]
-
 /-- **measure_ground_independent**: whatever a probe experiment on a ground-free netlist measures (a voltage
     difference or a branch current), the same experiment on the netlist re-grounded at ANY node `g` measures the same
     value. -/
@@ -154,51 +94,6 @@ theorem measure_ground_independent (kind : Kind) (s : K) (g : Nat) (e : Experime
     exact (read_regroundSol g x e.obs).symm
 
 /-! ### the seven quantities of netlistopsmixin.py -/
-
-theorem mapSrc_mapNodes (f : K → K) (ρ : Nat → Nat) (c : Cpt K) :
-    (c.mapSrc f).mapNodes ρ = (c.mapNodes ρ).mapSrc f := by
-  cases c <;> simp [Cpt.mapSrc, Cpt.mapNodes]
-
-theorem reground_killAll (g : Nat) (cs : List (Cpt K)) : reground g (killAll cs) = killAll (reground g cs) := by
-  simp [reground, killAll, List.map_map, Function.comp_def, mapSrc_mapNodes]
-
-theorem reground_append (g : Nat) (a b : List (Cpt K)) : reground g (a ++ b) = reground g a ++ reground g b := by
-  simp [reground]
-
-theorem swap0_beq (g a b : Nat) : (swap0 g a == swap0 g b) = (a == b) := by
-  by_cases h : a = b
-  · subst h; simp
-  · have : swap0 g a ≠ swap0 g b := fun e => h ((swap0_inj g a b).mp e)
-    simp [h, this]
-
-theorem isVAcross_swap0 (g p m : Nat) (c : Cpt K) :
-    (c.mapNodes (swap0 g)).isVAcross (swap0 g p) (swap0 g m) = c.isVAcross p m := by
-  cases c <;> simp [Cpt.mapNodes, Cpt.isVAcross, swap0_beq]
-
-theorem reground_filter_across (g p m : Nat) (cs : List (Cpt K)) :
-    reground g (cs.filter (fun c => !c.isVAcross p m)) =
-      (reground g cs).filter (fun c => !c.isVAcross (swap0 g p) (swap0 g m)) := by
-  simp only [reground, List.filter_map]
-  congr 1
-  apply List.filter_congr
-  intro c _
-  simp [Function.comp, isVAcross_swap0]
-
-theorem groundFree_killAll (cs : List (Cpt K)) (h : ∀ c ∈ cs, c.GroundFree) : ∀ c ∈ killAll cs, c.GroundFree := by
-  intro c hc
-  obtain ⟨c0, hc0, rfl⟩ := List.mem_map.mp hc
-  have := h c0 hc0
-  cases c0 <;> simp_all [Cpt.GroundFree, Cpt.mapSrc]
-
-theorem groundFree_filter (cs : List (Cpt K)) (P : Cpt K → Bool) (h : ∀ c ∈ cs, c.GroundFree) :
-    ∀ c ∈ cs.filter P, c.GroundFree := fun c hc => h c (List.mem_filter.mp hc).1
-
-theorem groundFree_append (a b : List (Cpt K)) (ha : ∀ c ∈ a, c.GroundFree) (hb : ∀ c ∈ b, c.GroundFree) :
-    ∀ c ∈ a ++ b, c.GroundFree := by
-  intro c hc
-  rcases List.mem_append.mp hc with h | h
-  · exact ha c h
-  · exact hb c h
 
 /-- **impedance_ground_independent**: the driving-point impedance between `p` and `m` (sources and initial
     conditions killed, 1 A test source) is the same with node `g` as the reference node. -/
